@@ -235,82 +235,117 @@ Proof.
 Qed.
 
 (* ------------------------------------------------------------------ MakeTLSConfig *)
+(* nil entries count as configs without TLS *)
 Definition uniform (p : bool) (cs : list (option tcfg)) : Prop :=
-  forall c, In (Some c) cs -> enabled c = p.
-Definition no_nil (cs : list (option tcfg)) : Prop := forall o, In o cs -> o <> None.
+  forall o, In o cs -> enabled (cfg_of o) = p.
+
+Lemma mk_loop_cons dc bad i prev o cs m :
+  mk_loop dc bad i prev (o :: cs) m =
+  let c := cfg_of o in
+  if match prev with Some p => negb (Bool.eqb (enabled c) p) | None => false end then inl 1
+  else match build dc bad c with
+       | None => inl 2
+       | Some ob =>
+         if match mget (key_of (host c)) m with
+            | Some (_, c2, ob2) => negb (compat c c2 ob ob2)
+            | None => false
+            end then inl 3
+         else mk_loop dc bad (S i) (Some (enabled c)) cs (mset (key_of (host c)) (i, c, ob) m)
+       end.
+Proof. reflexivity. Qed.
 
 Lemma mk_loop_uniform dc bad i p cs m m' :
-  no_nil cs -> mk_loop dc bad i (Some p) cs m = inr m' -> uniform p cs.
+  mk_loop dc bad i (Some p) cs m = inr m' -> uniform p cs.
 Proof.
-  revert i p m; induction cs as [|o cs IH]; intros i p m Hnn H c Hin; [destruct Hin|].
-  destruct o as [c0|]; [|exfalso; apply (Hnn None); [left; reflexivity|reflexivity]].
-  simpl in H.
+  revert i p m; induction cs as [|o cs IH]; intros i p m H o' Hin; [destruct Hin|].
+  rewrite mk_loop_cons in H. cbv zeta in H. set (c0 := cfg_of o) in *.
   destruct (Bool.eqb (enabled c0) p) eqn:Ee; simpl in H; [|discriminate].
   apply Bool.eqb_prop in Ee.
   destruct (build dc bad c0) as [ob|]; [|discriminate].
-  destruct (match mget (host c0) m with Some (_, c2, ob2) => negb (compat c0 c2 ob ob2) | None => false end);
+  destruct (match mget (key_of (host c0)) m with Some (_, c2, ob2) => negb (compat c0 c2 ob ob2) | None => false end);
     [discriminate|].
-  destruct Hin as [Heq|Hin].
-  - injection Heq as <-. exact Ee.
-  - rewrite Ee in H. eapply IH; [|exact H|exact Hin]. intros o Ho. apply Hnn. right. exact Ho.
+  destruct Hin as [<-|Hin].
+  - exact Ee.
+  - rewrite Ee in H. eapply IH; [exact H|exact Hin].
 Qed.
 
-Lemma mixing_rejected dc bad cs :
-  no_nil cs ->
-  (exists c1 c2, In (Some c1) cs /\ In (Some c2) cs /\ enabled c1 <> enabled c2) ->
+(* a group is returned only when every entry is a config with TLS enabled *)
+Lemma group_uniform dc bad cs g :
+  make_tls_config dc bad cs = MkGroup g -> uniform true cs.
+Proof.
+  unfold make_tls_config. destruct cs as [|o cs]; [discriminate|].
+  destruct (mk_loop dc bad 0 None (o :: cs) []) as [e|m'] eqn:E; [discriminate|].
+  destruct (first_enabled (o :: cs)) eqn:Ef; [|discriminate]. intros _.
+  destruct o as [c0|]; [|discriminate]. simpl in Ef.
+  rewrite mk_loop_cons in E. cbv zeta in E. simpl cfg_of in E. cbv iota in E.
+  destruct (build dc bad c0) as [ob|]; [|discriminate].
+  cbn [mget] in E.
+  intros o [<-|Hin].
+  - exact Ef.
+  - rewrite Ef in E. eapply mk_loop_uniform; [exact E|exact Hin].
+Qed.
+
+Lemma enabled_cfg_of o : enabled (cfg_of o) = true -> exists c, o = Some c /\ enabled c = true.
+Proof. destruct o as [c|]; simpl; [eauto|discriminate]. Qed.
+
+Lemma group_all_enabled dc bad cs g :
+  make_tls_config dc bad cs = MkGroup g ->
+  (forall o, In o cs -> o <> None) /\ forall c, In (Some c) cs -> enabled c = true.
+Proof.
+  intro H. pose proof (group_uniform _ _ _ _ H) as Hu. split.
+  - intros o Hin ->. specialize (Hu None Hin). discriminate.
+  - intros c Hin. exact (Hu (Some c) Hin).
+Qed.
+
+Lemma mixing_rejected_gen dc bad cs :
+  (exists o1 o2, In o1 cs /\ In o2 cs /\ enabled (cfg_of o1) <> enabled (cfg_of o2)) ->
   exists e, make_tls_config dc bad cs = MkErr e.
 Proof.
-  intros Hnn [c1 [c2 [H1 [H2 Hd]]]]. unfold make_tls_config.
+  intros [o1 [o2 [H1 [H2 Hd]]]]. unfold make_tls_config.
   destruct cs as [|o cs]; [destruct H1|].
   destruct (mk_loop dc bad 0 None (o :: cs) []) as [e|m'] eqn:E; [eauto|]. exfalso.
-  destruct o as [c0|]; [|apply (Hnn None); [left; reflexivity|reflexivity]].
-  simpl in E.
+  rewrite mk_loop_cons in E. cbv zeta in E. set (c0 := cfg_of o) in *.
   destruct (build dc bad c0) as [ob|]; [|discriminate].
-  simpl in E.
-  assert (Hu : uniform (enabled c0) cs).
-  { eapply mk_loop_uniform; [|exact E]. intros o Ho. apply Hnn. right. exact Ho. }
-  assert (Ha : forall c, In (Some c) (Some c0 :: cs) -> enabled c = enabled c0).
-  { intros c [Heq|Hin]; [injection Heq as <-; reflexivity|apply Hu; exact Hin]. }
+  cbn [mget] in E.
+  pose proof (mk_loop_uniform _ _ _ _ _ _ _ E) as Hu.
+  assert (Ha : forall o', In o' (o :: cs) -> enabled (cfg_of o') = enabled c0).
+  { intros o' [<-|Hin]; [reflexivity|apply Hu; exact Hin]. }
   apply Hd. rewrite (Ha _ H1), (Ha _ H2). reflexivity.
+Qed.
+
+(* TLS and plaintext sites (a nil entry counting as plaintext) on one listener: always an error *)
+Lemma mixing_rejected dc bad cs :
+  mixed cs = true -> exists e, make_tls_config dc bad cs = MkErr e.
+Proof.
+  unfold mixed. intro H. apply andb_true_iff in H as [H1 H2].
+  apply existsb_exists in H1. destruct H1 as [o1 [Hin1 He1]].
+  apply existsb_exists in H2. destruct H2 as [o2 [Hin2 He2]].
+  apply mixing_rejected_gen. exists o1, o2. split; [exact Hin1|]. split; [exact Hin2|].
+  destruct o1 as [c1|]; [|discriminate]. simpl. rewrite He1.
+  destruct o2 as [c2|]; simpl; [|discriminate].
+  apply negb_true_iff in He2. rewrite He2. discriminate.
 Qed.
 
 (* the multiplex error is only raised for a TLS / not-TLS pair (nil counting as not TLS) *)
 Lemma mk_loop_err1 dc bad i prev cs m :
   mk_loop dc bad i prev cs m = inl 1 ->
-  (exists c, In (Some c) cs /\ exists p, (prev = Some p \/ In None cs /\ p = false \/
-                                          exists c', In (Some c') cs /\ enabled c' = p) /\
-                                         enabled c <> p).
+  exists o, In o cs /\ exists p, (prev = Some p \/ exists o', In o' cs /\ enabled (cfg_of o') = p) /\
+                                 enabled (cfg_of o) <> p.
 Proof.
   revert i prev m; induction cs as [|o cs IH]; intros i prev m H; [discriminate|].
-  destruct o as [c0|]; simpl in H.
-  - destruct prev as [p|].
-    + destruct (Bool.eqb (enabled c0) p) eqn:Ee; simpl in H.
-      * destruct (build dc bad c0) as [ob|]; [|discriminate].
-        destruct (match mget (host c0) m with Some (_, c2, ob2) => negb (compat c0 c2 ob ob2) | None => false end);
-          [discriminate|].
-        destruct (IH _ _ _ H) as [c [Hin [q [Hq Hne]]]].
-        exists c. split; [right; exact Hin|]. exists q. split; [|exact Hne].
-        destruct Hq as [Hq|[[Hq1 Hq2]|[c' [Hq1 Hq2]]]].
-        -- injection Hq as <-. right. right. exists c0. split; [left; reflexivity|reflexivity].
-        -- right. left. split; [right; exact Hq1|exact Hq2].
-        -- right. right. exists c'. split; [right; exact Hq1|exact Hq2].
-      * exists c0. split; [left; reflexivity|]. exists p. split; [left; reflexivity|].
-        intro Heq. rewrite Heq in Ee. destruct p; discriminate.
-    + destruct (build dc bad c0) as [ob|]; [|discriminate]. simpl in H.
-      destruct (match mget (host c0) m with Some (_, c2, ob2) => negb (compat c0 c2 ob ob2) | None => false end);
-        [discriminate|].
-      destruct (IH _ _ _ H) as [c [Hin [q [Hq Hne]]]].
-      exists c. split; [right; exact Hin|]. exists q. split; [|exact Hne].
-      destruct Hq as [Hq|[[Hq1 Hq2]|[c' [Hq1 Hq2]]]].
-      * injection Hq as <-. right. right. exists c0. split; [left; reflexivity|reflexivity].
-      * right. left. split; [right; exact Hq1|exact Hq2].
-      * right. right. exists c'. split; [right; exact Hq1|exact Hq2].
-  - destruct (IH _ _ _ H) as [c [Hin [q [Hq Hne]]]].
-    exists c. split; [right; exact Hin|]. exists q. split; [|exact Hne].
-    destruct Hq as [Hq|[[Hq1 Hq2]|[c' [Hq1 Hq2]]]].
-    + injection Hq as <-. right. left. split; [left; reflexivity|reflexivity].
-    + right. left. split; [right; exact Hq1|exact Hq2].
-    + right. right. exists c'. split; [right; exact Hq1|exact Hq2].
+  rewrite mk_loop_cons in H. cbv zeta in H. set (c0 := cfg_of o) in *.
+  destruct (match prev with Some p => negb (Bool.eqb (enabled c0) p) | None => false end) eqn:Ep.
+  - destruct prev as [p|]; [|discriminate]. apply negb_true_iff in Ep.
+    exists o. split; [left; reflexivity|]. exists p. split; [left; reflexivity|].
+    fold c0. intro Heq. rewrite Heq in Ep. destruct p; discriminate.
+  - destruct (build dc bad c0) as [ob|]; [|discriminate].
+    destruct (match mget (key_of (host c0)) m with Some (_, c2, ob2) => negb (compat c0 c2 ob ob2) | None => false end);
+      [discriminate|].
+    destruct (IH _ _ _ H) as [o1 [Hin [q [Hq Hne]]]].
+    exists o1. split; [right; exact Hin|]. exists q. split; [|exact Hne].
+    destruct Hq as [Hq|[o' [Hq1 Hq2]]].
+    + injection Hq as <-. right. exists o. split; [left; reflexivity|reflexivity].
+    + right. exists o'. split; [right; exact Hq1|exact Hq2].
 Qed.
 
 Lemma mix_error_sound dc bad cs :
@@ -319,26 +354,29 @@ Proof.
   unfold make_tls_config. destruct cs as [|o cs]; [discriminate|].
   destruct (mk_loop dc bad 0 None (o :: cs) []) as [e|m'] eqn:E; [|destruct (first_enabled _); discriminate].
   intro H. injection H as ->.
-  destruct (mk_loop_err1 _ _ _ _ _ _ E) as [c [Hin [p [Hp Hne]]]].
+  destruct (mk_loop_err1 _ _ _ _ _ _ E) as [o1 [Hin [p [Hp Hne]]]].
+  destruct Hp as [Hp|[o2 [Hp1 Hp2]]]; [discriminate|].
+  assert (Hon : forall x, In x (o :: cs) -> enabled (cfg_of x) = true ->
+                existsb (fun o => match o with Some c => enabled c | None => false end) (o :: cs) = true).
+  { intros x Hx Hex. apply existsb_exists. exists x. split; [exact Hx|].
+    destruct x as [c|]; [exact Hex|discriminate]. }
+  assert (Hoff : forall x, In x (o :: cs) -> enabled (cfg_of x) = false ->
+                 existsb (fun o => match o with Some c => negb (enabled c) | None => true end) (o :: cs) = true).
+  { intros x Hx Hex. apply existsb_exists. exists x. split; [exact Hx|].
+    destruct x as [c|]; [simpl in Hex; rewrite Hex; reflexivity|reflexivity]. }
   unfold mixed. apply andb_true_iff.
-  destruct Hp as [Hp|[[Hp1 Hp2]|[c' [Hp1 Hp2]]]]; [discriminate| |].
-  - subst p. split; apply existsb_exists.
-    + exists (Some c). split; [exact Hin|]. destruct (enabled c); [reflexivity|congruence].
-    + exists None. split; [exact Hp1|reflexivity].
-  - destruct (enabled c) eqn:Ec.
-    + split; apply existsb_exists.
-      * exists (Some c). split; [exact Hin|exact Ec].
-      * exists (Some c'). split; [exact Hp1|]. simpl. rewrite Hp2. destruct p; [congruence|reflexivity].
-    + split; apply existsb_exists.
-      * exists (Some c'). split; [exact Hp1|]. simpl. rewrite Hp2. destruct p; [reflexivity|congruence].
-      * exists (Some c). split; [exact Hin|]. simpl. rewrite Ec. reflexivity.
+  destruct (enabled (cfg_of o1)) eqn:E1; destruct (enabled (cfg_of o2)) eqn:E2.
+  - exfalso. apply Hne. congruence.
+  - split; [exact (Hon o1 Hin E1)|exact (Hoff o2 Hp1 E2)].
+  - split; [exact (Hon o2 Hp1 E2)|exact (Hoff o1 Hin E1)].
+  - exfalso. apply Hne. congruence.
 Qed.
 
 (* every entry of the group is one of the given configs, stored under its key, with the
    tls.Config built from that very config *)
 Definition entries_ok dc bad (all : list (option tcfg)) (m : amap gval) : Prop :=
   forall k i c ob, mget k m = Some (i, c, ob) ->
-    nth_error all i = Some (Some c) /\ key_of (host c) = k /\ build dc bad c = Some ob.
+    (exists o, nth_error all i = Some o /\ cfg_of o = c) /\ key_of (host c) = k /\ build dc bad c = Some ob.
 
 Lemma mk_loop_entries dc bad all done cs prev m m' :
   all = done ++ cs ->
@@ -350,43 +388,36 @@ Proof.
   - simpl in H. injection H as <-. exact Hinv.
   - assert (Hall' : all = (done ++ [o]) ++ cs) by (rewrite <- app_assoc; exact Hall).
     assert (Hlen : length (done ++ [o]) = S (length done)) by (rewrite app_length; simpl; lia).
-    destruct o as [c0|]; simpl in H.
-    + destruct (match prev with Some p => negb (Bool.eqb (enabled c0) p) | None => false end); [discriminate|].
-      destruct (build dc bad c0) as [ob|] eqn:Eb; [|discriminate].
-      destruct (match mget (host c0) m with Some (_, c2, ob2) => negb (compat c0 c2 ob ob2) | None => false end);
-        [discriminate|].
-      rewrite <- Hlen in H. eapply IH; [exact Hall'| |exact H].
-      intros k i c ob' Hg. rewrite mget_mset in Hg.
-      destruct (beq (key_of (host c0)) k) eqn:Ek.
-      * injection Hg as <- <- <-. apply beq_eq in Ek. split; [|split; [exact Ek|exact Eb]].
-        rewrite Hall. rewrite nth_error_app2; [|lia]. rewrite Nat.sub_diag. reflexivity.
-      * apply Hinv. exact Hg.
-    + rewrite <- Hlen in H. eapply IH; [exact Hall'|exact Hinv|exact H].
+    rewrite mk_loop_cons in H. cbv zeta in H. set (c0 := cfg_of o) in *.
+    destruct (match prev with Some p => negb (Bool.eqb (enabled c0) p) | None => false end); [discriminate|].
+    destruct (build dc bad c0) as [ob|] eqn:Eb; [|discriminate].
+    destruct (match mget (key_of (host c0)) m with Some (_, c2, ob2) => negb (compat c0 c2 ob ob2) | None => false end);
+      [discriminate|].
+    rewrite <- Hlen in H. eapply IH; [exact Hall'| |exact H].
+    intros k i c ob' Hg. rewrite mget_mset in Hg.
+    destruct (beq (key_of (host c0)) k) eqn:Ek.
+    + injection Hg as <- <- <-. apply beq_eq in Ek. split; [|split; [exact Ek|exact Eb]].
+      exists o. split; [|reflexivity].
+      rewrite Hall. rewrite nth_error_app2; [|lia]. rewrite Nat.sub_diag. reflexivity.
+    + apply Hinv. exact Hg.
 Qed.
 
 Lemma group_entries dc bad cs g :
-  make_tls_config dc bad cs = MkGroup g -> entries_ok dc bad cs g.
+  make_tls_config dc bad cs = MkGroup g ->
+  forall k i c ob, mget k g = Some (i, c, ob) ->
+    nth_error cs i = Some (Some c) /\ key_of (host c) = k /\ build dc bad c = Some ob.
 Proof.
+  intro Hmk. pose proof (group_uniform _ _ _ _ Hmk) as Hu. revert Hmk.
   unfold make_tls_config. destruct cs as [|o cs]; [discriminate|].
   destruct (mk_loop dc bad 0 None (o :: cs) []) as [e|m'] eqn:E; [discriminate|].
   destruct (first_enabled (o :: cs)); [|discriminate]. intro H. injection H as <-.
-  eapply (mk_loop_entries dc bad (o :: cs) [] (o :: cs)); [reflexivity| |exact E].
-  intros k i c ob Hg. discriminate.
-Qed.
-
-(* a group is only returned when its first config has TLS enabled; without nil entries every
-   config then has *)
-Lemma group_all_enabled dc bad cs g :
-  no_nil cs -> make_tls_config dc bad cs = MkGroup g -> uniform true cs.
-Proof.
-  unfold make_tls_config. intros Hnn. destruct cs as [|o cs]; [discriminate|].
-  destruct (mk_loop dc bad 0 None (o :: cs) []) as [e|m'] eqn:E; [discriminate|].
-  destruct (first_enabled (o :: cs)) eqn:Ef; [|discriminate]. intros _.
-  destruct o as [c0|]; [|discriminate]. simpl in Ef. simpl in E.
-  destruct (build dc bad c0) as [ob|]; [|discriminate]. simpl in E.
-  intros c [Heq|Hin].
-  - injection Heq as <-. exact Ef.
-  - rewrite Ef in E. eapply mk_loop_uniform; [|exact E|exact Hin]. intros o Ho. apply Hnn. right. exact Ho.
+  assert (Hent : entries_ok dc bad (o :: cs) m').
+  { eapply (mk_loop_entries dc bad (o :: cs) [] (o :: cs)); [reflexivity| |exact E].
+    intros k i c ob Hg. discriminate. }
+  intros k i c ob Hg. destruct (Hent _ _ _ _ Hg) as [[o' [Hn Hc]] [Hk Hb]].
+  split; [|split; assumption].
+  rewrite Hn. f_equal. assert (Hin : In o' (o :: cs)) by (eapply nth_error_In; exact Hn).
+  destruct (enabled_cfg_of o' (Hu o' Hin)) as [c1 [-> _]]. simpl in Hc. congruence.
 Qed.
 
 Lemma build_enabled_fields dc bad c ob :
@@ -418,15 +449,8 @@ Proof.
     + left. eapply Hd. exact Hin.
 Qed.
 
-(* sites that share a proper host name (not "", 0.0.0.0, ::) all get settings equal to their own *)
-Definition proper (h : bytes) : Prop := h <> [] /\ key_of h = h.
-
-Lemma key_of_proper h x : proper h -> key_of x = h -> x = h.
-Proof.
-  intros [Hne Hk] H. unfold key_of in H.
-  destruct (beq x (bs "0.0.0.0"%string) || beq x (bs "::"%string)); [congruence|exact H].
-Qed.
-
+(* sites that share a key (a host name, or one of the catch-all spellings "", 0.0.0.0, ::) all
+   get settings equal to their own: the compatibility assert is applied under the stored key *)
 Lemma compat_same c1 c2 ob1 ob2 : compat c1 c2 ob1 ob2 = true -> ob1 = ob2.
 Proof.
   unfold compat. destruct ob1 as [x|], ob2 as [y|]; try discriminate; [|reflexivity].
@@ -434,8 +458,8 @@ Proof.
 Qed.
 
 Definition own_ok dc bad (done : list (option tcfg)) (m : amap gval) : Prop :=
-  forall c, In (Some c) done -> proper (host c) ->
-    exists i c' ob, mget (host c) m = Some (i, c', ob) /\ build dc bad c = Some ob.
+  forall o, In o done ->
+    exists i c' ob, mget (key_of (host (cfg_of o))) m = Some (i, c', ob) /\ build dc bad (cfg_of o) = Some ob.
 
 Lemma mk_loop_own dc bad done cs prev m m' :
   own_ok dc bad done m ->
@@ -446,48 +470,44 @@ Proof.
   - simpl in H. injection H as <-. rewrite app_nil_r. exact Hinv.
   - assert (Hlen : length (done ++ [o]) = S (length done)) by (rewrite app_length; simpl; lia).
     replace (done ++ o :: cs) with ((done ++ [o]) ++ cs) by (rewrite <- app_assoc; reflexivity).
-    destruct o as [c0|]; simpl in H.
-    + destruct (match prev with Some p => negb (Bool.eqb (enabled c0) p) | None => false end); [discriminate|].
-      destruct (build dc bad c0) as [ob|] eqn:Eb; [|discriminate].
-      destruct (mget (host c0) m) as [[[i2 c2] ob2]|] eqn:Eg.
-      * destruct (compat c0 c2 ob ob2) eqn:Ec; simpl in H; [|discriminate].
-        rewrite <- Hlen in H. eapply IH; [|exact H].
-        intros c Hin Hp. rewrite mget_mset.
-        destruct (beq (key_of (host c0)) (host c)) eqn:Ek.
-        -- apply beq_eq in Ek. apply (key_of_proper _ _ Hp) in Ek.
-           apply in_app_or in Hin. destruct Hin as [Hin|[Heq|[]]].
-           ++ destruct (Hinv c Hin Hp) as [i [c' [ob' [Hg Hb]]]].
-              rewrite <- Ek in Hg. rewrite Eg in Hg. injection Hg as <- <- <-.
-              apply compat_same in Ec. subst ob2. eauto.
-           ++ injection Heq as <-. eauto.
-        -- apply in_app_or in Hin. destruct Hin as [Hin|[Heq|[]]].
-           ++ apply Hinv; assumption.
-           ++ injection Heq as <-. destruct Hp as [_ Hk]. rewrite Hk in Ek. rewrite beq_refl in Ek. discriminate.
-      * simpl in H. rewrite <- Hlen in H. eapply IH; [|exact H].
-        intros c Hin Hp. rewrite mget_mset.
-        destruct (beq (key_of (host c0)) (host c)) eqn:Ek.
-        -- apply beq_eq in Ek. apply (key_of_proper _ _ Hp) in Ek.
-           apply in_app_or in Hin. destruct Hin as [Hin|[Heq|[]]].
-           ++ destruct (Hinv c Hin Hp) as [i [c' [ob' [Hg Hb]]]].
-              rewrite <- Ek in Hg. rewrite Eg in Hg. discriminate.
-           ++ injection Heq as <-. eauto.
-        -- apply in_app_or in Hin. destruct Hin as [Hin|[Heq|[]]].
-           ++ apply Hinv; assumption.
-           ++ injection Heq as <-. destruct Hp as [_ Hk]. rewrite Hk in Ek. rewrite beq_refl in Ek. discriminate.
-    + rewrite <- Hlen in H. eapply IH; [|exact H].
-      intros c Hin Hp. apply in_app_or in Hin. destruct Hin as [Hin|[Heq|[]]]; [|discriminate].
-      apply Hinv; assumption.
+    rewrite mk_loop_cons in H. cbv zeta in H. set (c0 := cfg_of o) in *.
+    destruct (match prev with Some p => negb (Bool.eqb (enabled c0) p) | None => false end); [discriminate|].
+    destruct (build dc bad c0) as [ob|] eqn:Eb; [|discriminate].
+    destruct (mget (key_of (host c0)) m) as [[[i2 c2] ob2]|] eqn:Eg.
+    + destruct (compat c0 c2 ob ob2) eqn:Ec; simpl in H; [|discriminate].
+      rewrite <- Hlen in H. eapply IH; [|exact H].
+      intros o1 Hin. rewrite mget_mset.
+      destruct (beq (key_of (host c0)) (key_of (host (cfg_of o1)))) eqn:Ek.
+      * apply beq_eq in Ek.
+        apply in_app_or in Hin. destruct Hin as [Hin|[Heq|[]]].
+        -- destruct (Hinv o1 Hin) as [i [c' [ob' [Hg Hb]]]].
+           rewrite <- Ek in Hg. rewrite Eg in Hg. injection Hg as <- <- <-.
+           apply compat_same in Ec. subst ob2. eauto.
+        -- subst o1. fold c0. eauto.
+      * apply in_app_or in Hin. destruct Hin as [Hin|[Heq|[]]].
+        -- apply Hinv; assumption.
+        -- subst o1. fold c0 in Ek. rewrite beq_refl in Ek. discriminate.
+    + simpl in H. rewrite <- Hlen in H. eapply IH; [|exact H].
+      intros o1 Hin. rewrite mget_mset.
+      destruct (beq (key_of (host c0)) (key_of (host (cfg_of o1)))) eqn:Ek.
+      * apply beq_eq in Ek.
+        apply in_app_or in Hin. destruct Hin as [Hin|[Heq|[]]].
+        -- destruct (Hinv o1 Hin) as [i [c' [ob' [Hg Hb]]]].
+           rewrite <- Ek in Hg. rewrite Eg in Hg. discriminate.
+        -- subst o1. fold c0. eauto.
+      * apply in_app_or in Hin. destruct Hin as [Hin|[Heq|[]]].
+        -- apply Hinv; assumption.
+        -- subst o1. fold c0 in Ek. rewrite beq_refl in Ek. discriminate.
 Qed.
 
 Lemma group_own_settings dc bad cs g c :
-  make_tls_config dc bad cs = MkGroup g -> In (Some c) cs -> proper (host c) ->
-  exists i c' ob, mget (host c) g = Some (i, c', ob) /\ build dc bad c = Some ob.
+  make_tls_config dc bad cs = MkGroup g -> In (Some c) cs ->
+  exists i c' ob, mget (key_of (host c)) g = Some (i, c', ob) /\ build dc bad c = Some ob.
 Proof.
   unfold make_tls_config. destruct cs as [|o cs]; [discriminate|].
   destruct (mk_loop dc bad 0 None (o :: cs) []) as [e|m'] eqn:E; [discriminate|].
   destruct (first_enabled (o :: cs)); [|discriminate]. intro H. injection H as <-.
-  apply (mk_loop_own dc bad [] (o :: cs) None [] m'); [|exact E].
-  intros c0 [].
+  intro Hin. apply (mk_loop_own dc bad [] (o :: cs) None [] m' (fun _ F => match F with end) E (Some c) Hin).
 Qed.
 
 (* ------------------------------------------------------------------ defaults *)
@@ -542,29 +562,57 @@ Lemma tls_off_disables dc h hasargs os c :
 Proof. unfold tls_setup. intro H. injection H as <-. reflexivity. Qed.
 
 (* ------------------------------------------------------------------ strict SNI = Host *)
-Lemma strict_sni_host sites sni rhost i s :
-  serve sites (Some sni) rhost = Served i -> nth_error sites i = Some s -> demands (s_tls s) = true ->
-  to_lower sni = to_lower (req_hostname rhost).
+Lemma strict_served sites dflt conn sni rhost i s :
+  serve sites dflt conn (Some sni) rhost = Served i -> nth_error sites i = Some s -> demands (s_tls s) = true ->
+  to_lower sni = route_host rhost /\ (sni = [] -> sniless_elsewhere sites dflt conn = false).
 Proof.
   unfold serve. destruct (vmatch (vhosts sites) (route_host rhost)) as [[k j]|]; [|discriminate].
   destruct (nth_error sites j) as [s'|] eqn:Ej; [|discriminate].
-  destruct (strict_fail (s_tls s') (Some sni) (req_hostname rhost)) eqn:Es; [discriminate|].
+  destruct (strict_fail (s_tls s') (Some sni) (route_host rhost) (sniless_elsewhere sites dflt conn)) eqn:Es;
+    [discriminate|].
   intro H. injection H as <-. intros Hn Hd. rewrite Ej in Hn. injection Hn as <-.
   unfold strict_fail in Es. rewrite Hd in Es. simpl in Es.
-  apply negb_false_iff in Es. apply beq_eq in Es. exact Es.
+  apply orb_false_iff in Es as [Es1 Es2].
+  apply negb_false_iff in Es1. apply beq_eq in Es1. split; [exact Es1|].
+  intros ->. simpl in Es2. exact Es2.
 Qed.
 
-Lemma forbidden_only_on_mismatch sites tls rhost i :
-  serve sites tls rhost = Forbidden i ->
+Lemma strict_sni_host sites dflt conn sni rhost i s :
+  serve sites dflt conn (Some sni) rhost = Served i -> nth_error sites i = Some s -> demands (s_tls s) = true ->
+  to_lower sni = route_host rhost.
+Proof. intros H1 H2 H3. exact (proj1 (strict_served _ _ _ _ _ _ _ H1 H2 H3)). Qed.
+
+(* a request without SNI reaches a client-certificate site only when no default server name is
+   set and no site is named by the local address of the connection *)
+Lemma sniless_served sites dflt conn rhost i s :
+  serve sites dflt conn (Some []) rhost = Served i -> nth_error sites i = Some s -> demands (s_tls s) = true ->
+  trim_space dflt = [] /\
+  forall a s', conn = Some a -> In s' sites -> host (s_tls s') <> host_only a.
+Proof.
+  intros H1 H2 H3. pose proof (proj2 (strict_served _ _ _ _ _ _ _ H1 H2 H3) eq_refl) as He.
+  unfold sniless_elsewhere in He. apply orb_false_iff in He as [He1 He2]. split.
+  - apply negb_false_iff in He1. destruct (trim_space dflt); [reflexivity|discriminate].
+  - intros a s' -> Hin Heq.
+    assert (Hex : existsb (fun s0 => beq (host (s_tls s0)) (host_only a)) sites = true).
+    { apply existsb_exists. exists s'. split; [exact Hin|]. apply beq_eq. exact Heq. }
+    rewrite Hex in He2. discriminate.
+Qed.
+
+Lemma forbidden_only_on_mismatch sites dflt conn tls rhost i :
+  serve sites dflt conn tls rhost = Forbidden i ->
   exists sni s, tls = Some sni /\ nth_error sites i = Some s /\ demands (s_tls s) = true /\
-                to_lower sni <> to_lower (req_hostname rhost).
+                (to_lower sni <> route_host rhost \/
+                 (sni = [] /\ sniless_elsewhere sites dflt conn = true)).
 Proof.
   unfold serve. destruct (vmatch (vhosts sites) (route_host rhost)) as [[k j]|]; [|discriminate].
   destruct (nth_error sites j) as [s'|] eqn:Ej; [|discriminate].
-  destruct (strict_fail (s_tls s') tls (req_hostname rhost)) eqn:Es; [|discriminate].
+  destruct (strict_fail (s_tls s') tls (route_host rhost) (sniless_elsewhere sites dflt conn)) eqn:Es; [|discriminate].
   intro H. injection H as <-. unfold strict_fail in Es. destruct tls as [sni|]; [|discriminate].
   apply andb_true_iff in Es as [Hd Hn]. exists sni, s'. repeat split; try assumption.
-  apply negb_true_iff in Hn. apply beq_false_neq. exact Hn.
+  apply orb_true_iff in Hn as [Hn|Hn].
+  - left. apply negb_true_iff in Hn. apply beq_false_neq. exact Hn.
+  - right. apply andb_true_iff in Hn as [Hn1 Hn2]. split; [|exact Hn2].
+    destruct sni; [reflexivity|discriminate].
 Qed.
 
 (* ------------------------------------------------------------------ composite *)
@@ -629,101 +677,36 @@ Qed.
 (* domain of the TLS group *)
 Lemma mk_loop_none dc bad cs : forall i prev m m' k,
   mk_loop dc bad i prev cs m = inr m' ->
-  (mget k m' = None <-> (mget k m = None /\ forall c, In (Some c) cs -> key_of (host c) <> k)).
+  (mget k m' = None <-> (mget k m = None /\ forall o, In o cs -> key_of (host (cfg_of o)) <> k)).
 Proof.
-  induction cs as [|o cs IH]; simpl; intros i prev m m' k H.
-  - injection H as <-. split; [intro H; split; [exact H|intros ? []]|intros [H _]; exact H].
-  - destruct o as [c0|].
-    + destruct (match prev with Some p => negb (Bool.eqb (enabled c0) p) | None => false end); [discriminate|].
-      destruct (build dc bad c0) as [ob|]; [|discriminate].
-      destruct (match mget (host c0) m with Some (_, c2, ob2) => negb (compat c0 c2 ob ob2) | None => false end);
-        [discriminate|].
-      rewrite (IH _ _ _ _ k H). rewrite mget_mset. split.
-      * intros [H1 H2]. destruct (beq (key_of (host c0)) k) eqn:E; [discriminate|].
-        split; [exact H1|]. intros c [Heq|Hin]; [injection Heq as <-; apply beq_false_neq; exact E|apply H2; exact Hin].
-      * intros [H1 H2]. split.
-        -- destruct (beq (key_of (host c0)) k) eqn:E; [|exact H1].
-           apply beq_eq in E. exfalso. apply (H2 c0 (or_introl eq_refl)). exact E.
-        -- intros c Hin. apply H2. right. exact Hin.
-    + rewrite (IH _ _ _ _ k H). split.
-      * intros [H1 H2]. split; [exact H1|]. intros c [Heq|Hin]; [discriminate|apply H2; exact Hin].
-      * intros [H1 H2]. split; [exact H1|]. intros c Hin. apply H2. right. exact Hin.
-Qed.
-
-(* own settings when no config uses an unspecified-address spelling *)
-Definition plain_keys (cs : list (option tcfg)) : Prop :=
-  forall c, In (Some c) cs -> key_of (host c) = host c.
-
-Definition own_ok' dc bad (done : list (option tcfg)) (m : amap gval) : Prop :=
-  forall c, In (Some c) done ->
-    exists i c' ob, mget (host c) m = Some (i, c', ob) /\ build dc bad c = Some ob.
-
-Lemma mk_loop_own' dc bad done cs prev m m' :
-  plain_keys (done ++ cs) ->
-  own_ok' dc bad done m ->
-  mk_loop dc bad (length done) prev cs m = inr m' ->
-  own_ok' dc bad (done ++ cs) m'.
-Proof.
-  revert done prev m; induction cs as [|o cs IH]; intros done prev m Hpk Hinv H.
-  - simpl in H. injection H as <-. rewrite app_nil_r. exact Hinv.
-  - assert (Hlen : length (done ++ [o]) = S (length done)) by (rewrite app_length; simpl; lia).
-    assert (Heq : done ++ o :: cs = (done ++ [o]) ++ cs) by (rewrite <- app_assoc; reflexivity).
-    rewrite Heq. rewrite Heq in Hpk.
-    destruct o as [c0|]; simpl in H.
-    + assert (Hk0 : key_of (host c0) = host c0).
-      { apply Hpk. apply in_or_app. left. apply in_or_app. right. left. reflexivity. }
-      rewrite Hk0 in H.
-      destruct (match prev with Some p => negb (Bool.eqb (enabled c0) p) | None => false end); [discriminate|].
-      destruct (build dc bad c0) as [ob|] eqn:Eb; [|discriminate].
-      destruct (mget (host c0) m) as [[[i2 c2] ob2]|] eqn:Eg.
-      * destruct (compat c0 c2 ob ob2) eqn:Ec; simpl in H; [|discriminate].
-        rewrite <- Hlen in H. eapply IH; [exact Hpk| |exact H].
-        intros c Hin. rewrite mget_mset.
-        destruct (beq (host c0) (host c)) eqn:Ek.
-        -- apply beq_eq in Ek.
-           apply in_app_or in Hin. destruct Hin as [Hin|[Hc|[]]].
-           ++ destruct (Hinv c Hin) as [i [c' [ob' [Hg Hb]]]].
-              rewrite <- Ek in Hg. rewrite Eg in Hg. injection Hg as <- <- <-.
-              apply compat_same in Ec. subst ob2. eauto.
-           ++ injection Hc as <-. eauto.
-        -- apply in_app_or in Hin. destruct Hin as [Hin|[Hc|[]]].
-           ++ apply Hinv; assumption.
-           ++ injection Hc as <-. rewrite beq_refl in Ek. discriminate.
-      * simpl in H. rewrite <- Hlen in H. eapply IH; [exact Hpk| |exact H].
-        intros c Hin. rewrite mget_mset.
-        destruct (beq (host c0) (host c)) eqn:Ek.
-        -- apply beq_eq in Ek.
-           apply in_app_or in Hin. destruct Hin as [Hin|[Hc|[]]].
-           ++ destruct (Hinv c Hin) as [i [c' [ob' [Hg Hb]]]].
-              rewrite <- Ek in Hg. rewrite Eg in Hg. discriminate.
-           ++ injection Hc as <-. eauto.
-        -- apply in_app_or in Hin. destruct Hin as [Hin|[Hc|[]]].
-           ++ apply Hinv; assumption.
-           ++ injection Hc as <-. rewrite beq_refl in Ek. discriminate.
-    + rewrite <- Hlen in H. eapply IH; [exact Hpk| |exact H].
-      intros c Hin. apply in_app_or in Hin. destruct Hin as [Hin|[Hc|[]]]; [|discriminate].
-      apply Hinv; assumption.
-Qed.
-
-Lemma group_own_settings' dc bad cs g c :
-  plain_keys cs -> make_tls_config dc bad cs = MkGroup g -> In (Some c) cs ->
-  exists i c' ob, mget (host c) g = Some (i, c', ob) /\ build dc bad c = Some ob.
-Proof.
-  intro Hpk. unfold make_tls_config. destruct cs as [|o cs]; [discriminate|].
-  destruct (mk_loop dc bad 0 None (o :: cs) []) as [e|m'] eqn:E; [discriminate|].
-  destruct (first_enabled (o :: cs)); [|discriminate]. intro H. injection H as <-.
-  apply (mk_loop_own' dc bad [] (o :: cs) None [] m'); [exact Hpk| |exact E].
-  intros c0 [].
+  induction cs as [|o cs IH]; intros i prev m m' k H.
+  - simpl in H. injection H as <-. split; [intro H; split; [exact H|intros ? []]|intros [H _]; exact H].
+  - rewrite mk_loop_cons in H. cbv zeta in H. set (c0 := cfg_of o) in *.
+    destruct (match prev with Some p => negb (Bool.eqb (enabled c0) p) | None => false end); [discriminate|].
+    destruct (build dc bad c0) as [ob|]; [|discriminate].
+    destruct (match mget (key_of (host c0)) m with Some (_, c2, ob2) => negb (compat c0 c2 ob ob2) | None => false end);
+      [discriminate|].
+    rewrite (IH _ _ _ _ k H). rewrite mget_mset. split.
+    + intros [H1 H2]. destruct (beq (key_of (host c0)) k) eqn:E; [discriminate|].
+      split; [exact H1|]. intros o1 [<-|Hin]; [apply beq_false_neq; exact E|apply H2; exact Hin].
+    + intros [H1 H2]. split.
+      * destruct (beq (key_of (host c0)) k) eqn:E; [|exact H1].
+        apply beq_eq in E. exfalso. apply (H2 o (or_introl eq_refl)). exact E.
+      * intros o1 Hin. apply H2. right. exact Hin.
 Qed.
 
 Lemma group_domain dc bad cs g k :
   make_tls_config dc bad cs = MkGroup g ->
   (mget k g = None <-> forall c, In (Some c) cs -> key_of (host c) <> k).
 Proof.
+  intro Hmk. destruct (group_all_enabled _ _ _ _ Hmk) as [Hnn _]. revert Hmk.
   unfold make_tls_config. destruct cs as [|o cs]; [discriminate|].
   destruct (mk_loop dc bad 0 None (o :: cs) []) as [e|m'] eqn:E; [discriminate|].
   destruct (first_enabled (o :: cs)); [|discriminate]. intro H. injection H as <-.
-  rewrite (mk_loop_none _ _ _ _ _ _ _ k E). simpl. split; [intros [_ H]; exact H|intro H; split; [reflexivity|exact H]].
+  rewrite (mk_loop_none _ _ _ _ _ _ _ k E). split.
+  - intros [_ H] c Hin. exact (H (Some c) Hin).
+  - intro H. split; [reflexivity|]. intros o1 Hin. destruct o1 as [c|]; [exact (H c Hin)|].
+    exfalso. exact (Hnn None Hin eq_refl).
 Qed.
 
 Lemma to_lower_nonempty s : s <> [] -> to_lower s <> [].
@@ -738,66 +721,164 @@ Proof.
   - intro H. destruct (IH H) as [h' [Hin Hm]]. exists h'. split; [right; exact Hin|exact Hm].
 Qed.
 
+(* wildcard candidates begin with a star: they are neither empty nor an unspecified address *)
+Lemma join_star_head l : exists t, join [DOT] ([STAR] :: l) = STAR :: t.
+Proof. destruct l; simpl; eexists; reflexivity. Qed.
+
+Lemma wild_cands_star name c : In c (wild_cands name) -> exists t, c = STAR :: t.
+Proof.
+  rewrite wild_cands_closed. intro H. apply in_map_iff in H. destruct H as [k [<- Hk]].
+  apply in_seq in Hk. unfold cand. destruct k as [|k]; [lia|]. simpl. apply join_star_head.
+Qed.
+
+Lemma key_of_cases x :
+  (key_of x = [] /\ (x = bs "0.0.0.0"%string \/ x = bs "::"%string)) \/
+  (key_of x = x /\ x <> bs "0.0.0.0"%string /\ x <> bs "::"%string).
+Proof.
+  unfold key_of. destruct (beq x (bs "0.0.0.0"%string)) eqn:E1; destruct (beq x (bs "::"%string)) eqn:E2;
+    cbn [orb].
+  - left. split; [reflexivity|]. left. apply beq_eq. exact E1.
+  - left. split; [reflexivity|]. left. apply beq_eq. exact E1.
+  - left. split; [reflexivity|]. right. apply beq_eq. exact E2.
+  - right. split; [reflexivity|]. split; apply beq_false_neq; assumption.
+Qed.
+
+Lemma find_key_at {V} (m : amap V) pre k v rest :
+  (forall c, In c pre -> mget c m = None) -> mget k m = Some v ->
+  find_key m (pre ++ k :: rest) = Some (k, v).
+Proof.
+  intros Hp Hk. rewrite find_key_app_none; [|exact Hp]. simpl. rewrite Hk. reflexivity.
+Qed.
+
 Theorem clientauth_policy_governs dc bad sites g dflt conn sni rhost v s :
   make_tls_config dc bad (map (fun s => Some (s_tls s)) sites) = MkGroup g ->
-  (forall s, In s sites -> vhost_key (s_addr s) = host (s_tls s) /\ key_of (host (s_tls s)) = host (s_tls s)) ->
-  match_host (vhosts sites) (bs "0.0.0.0"%string) = None ->
-  match_host (vhosts sites) (bs "::"%string) = None ->
-  mget (bs "*"%string) (vhosts sites) = None ->
-  serve sites (Some sni) rhost = Served v -> nth_error sites v = Some s -> demands (s_tls s) = true ->
-  trim_space sni = sni -> sni <> [] ->
-  route_host rhost = to_lower (req_hostname rhost) ->
+  (forall s, In s sites -> vhost_key (s_addr s) = host (s_tls s)) ->
+  (forall c, In c fallback_star_names -> mget c (vhosts sites) = None) ->
+  serve sites dflt conn (Some sni) rhost = Served v -> nth_error sites v = Some s -> demands (s_tls s) = true ->
+  trim_space sni = sni ->
   exists k i c ob, get_config g dflt conn sni = Found k (i, c, ob) /\ build dc bad (s_tls s) = Some ob.
 Proof.
-  intros Hmk Hsites Hf1 Hf2 Hstar Hserve Hnth Hdem Htrim Hne Hroute.
-  pose proof (strict_sni_host _ _ _ _ _ Hserve Hnth Hdem) as Hsni.
+  intros Hmk Hsites Hstar Hserve Hnth Hdem Htrim.
+  pose proof (strict_sni_host _ _ _ _ _ _ _ Hserve Hnth Hdem) as Hsni.
+  pose proof Hserve as Hserve0.
   set (h := to_lower sni).
-  assert (Hname : effective_name dflt sni = h).
-  { unfold effective_name, normalized_name. rewrite Htrim. fold h.
-    destruct (is_nil h) eqn:E; [|reflexivity]. exfalso. apply (to_lower_nonempty sni Hne). fold h.
-    destruct h; [reflexivity|discriminate]. }
-  assert (Hhne : h <> []) by (apply to_lower_nonempty; exact Hne).
   (* the routed site and its key *)
-  unfold serve in Hserve. rewrite Hroute, <- Hsni in Hserve. fold h in Hserve.
+  unfold serve in Hserve. rewrite <- Hsni in Hserve. fold h in Hserve.
   destruct (vmatch (vhosts sites) h) as [[kk j]|] eqn:Ev; [|discriminate].
   destruct (nth_error sites j) as [s'|] eqn:Ej; [|discriminate].
-  destruct (strict_fail (s_tls s') (Some sni) (req_hostname rhost)); [discriminate|].
+  destruct (strict_fail (s_tls s') (Some sni) h _); [discriminate|].
   injection Hserve as ->. rewrite Hnth in Ej. injection Ej as <-.
-  (* kk is the first present key among h :: wild_cands h ++ [""] *)
-  assert (Hfk : find_key (vhosts sites) (h :: wild_cands h ++ [[]]) = Some (kk, v)).
-  { unfold vmatch, fallback_hosts in Ev. cbn [first_match] in Ev.
-    change (h :: wild_cands h ++ [[]]) with ((h :: wild_cands h) ++ [[]]).
-    destruct (match_host (vhosts sites) h) as [x|] eqn:E0.
-    - injection Ev as ->. apply find_key_app_some. exact E0.
-    - rewrite Hf1, Hf2 in Ev.
-      rewrite find_key_app_none; [|apply find_key_none; exact E0].
-      destruct (match_host (vhosts sites) []) as [x|] eqn:E3; [|discriminate]. injection Ev as ->.
-      unfold match_host in E3. change (wild_cands []) with [bs "*"%string] in E3.
-      cbn [find_key] in E3. cbn [find_key]. destruct (mget [] (vhosts sites)) as [w|]; [exact E3|].
-      rewrite Hstar in E3. discriminate. }
-  (* same domain *)
+  set (e := vhosts sites) in *.
   set (cfgs := map (fun s => Some (s_tls s)) sites) in *.
-  assert (Hdom : forall k, mget k (vhosts sites) = None <-> mget k g = None).
-  { intro k. unfold vhosts. rewrite vinsert_none. rewrite (group_domain _ _ _ _ k Hmk). split.
-    - intros [_ H] c Hin. unfold cfgs in Hin. apply in_map_iff in Hin. destruct Hin as [s0 [Hs0 Hin]].
-      injection Hs0 as <-. destruct (Hsites _ Hin) as [H1 H2]. rewrite H2, <- H1. apply H. exact Hin.
-    - intro H. split; [reflexivity|]. intros s0 Hin. destruct (Hsites _ Hin) as [H1 H2].
-      rewrite H1, <- H2. apply H. unfold cfgs. apply in_map_iff. exists s0. split; [reflexivity|exact Hin]. }
-  destruct (find_key_same_domain (vhosts sites) g _ kk v (fun c _ => Hdom c) Hfk) as [[[i c] ob] Hg].
-  exists kk, i, c, ob. split.
-  - unfold get_config. rewrite Hname.
-    destruct (is_nil h) eqn:E; [destruct h; [congruence|discriminate]|]. rewrite Hg. reflexivity.
-  - (* the entry under kk holds settings equal to the routed site's own *)
-    destruct (find_key_some _ _ _ _ Hfk) as [Hgv _].
-    unfold vhosts in Hgv. apply vinsert_get in Hgv. destruct Hgv as [[s0 [Hn0 [_ Hk0]]]|Hgv]; [|discriminate].
+  assert (Hin : In s sites) by (eapply nth_error_In; exact Hnth).
+  (* a key of the vhost table that holds v is the host name of s *)
+  assert (Hkey : forall k, mget k e = Some v -> k = host (s_tls s)).
+  { intros k Hg. unfold e, vhosts in Hg. apply vinsert_get in Hg.
+    destruct Hg as [[s0 [Hn0 [_ Hk0]]]|Hg]; [|discriminate].
     rewrite Nat.sub_0_r in Hn0. rewrite Hnth in Hn0. injection Hn0 as <-.
-    assert (Hin : In s sites) by (eapply nth_error_In; exact Hnth).
-    destruct (Hsites _ Hin) as [H1 H2]. rewrite H1 in Hk0.
-    assert (Hpk : plain_keys cfgs).
-    { intros c0 Hc0. unfold cfgs in Hc0. apply in_map_iff in Hc0. destruct Hc0 as [s0 [Hs0 Hin0]].
-      injection Hs0 as <-. apply (Hsites _ Hin0). }
-    destruct (group_own_settings' dc bad cfgs g (s_tls s) Hpk Hmk) as [i' [c' [ob' [Hg' Hb']]]].
-    { unfold cfgs. apply in_map_iff. exists s. split; [reflexivity|exact Hin]. }
-    rewrite Hk0 in Hg'. destruct (find_key_some _ _ _ _ Hg) as [Hgg _]. rewrite Hgg in Hg'.
-    injection Hg' as <- <- <-. exact Hb'.
+    rewrite <- Hk0. apply Hsites. exact Hin. }
+  (* a non-empty name absent from the vhost table is absent from the TLS group *)
+  assert (Hdom : forall c, c <> [] -> mget c e = None -> mget c g = None).
+  { intros c Hc He. apply (group_domain _ _ _ _ c Hmk). intros cf Hcf Hk.
+    unfold cfgs in Hcf. apply in_map_iff in Hcf. destruct Hcf as [s0 [Hs0 Hin0]]. injection Hs0 as <-.
+    unfold e, vhosts in He. apply vinsert_none in He. destruct He as [_ He].
+    destruct (key_of_cases (host (s_tls s0))) as [[Hk0 _]|[Hk0 _]]; [congruence|].
+    apply (He s0 Hin0). rewrite (Hsites _ Hin0). congruence. }
+  (* the unspecified addresses are never keys of the TLS group *)
+  assert (Hunspec : forall c, c = bs "0.0.0.0"%string \/ c = bs "::"%string -> mget c g = None).
+  { intros c Hc. apply (group_domain _ _ _ _ c Hmk). intros cf _ Hk.
+    destruct (key_of_cases (host cf)) as [[Hk0 _]|[Hk0 [N1 N2]]].
+    - rewrite Hk0 in Hk. destruct Hc as [-> | ->]; discriminate.
+    - rewrite Hk0 in Hk. destruct Hc as [-> | ->]; congruence. }
+  assert (Hwne : forall x c, In c (wild_cands x) -> c <> []).
+  { intros x c Hc. destruct (wild_cands_star _ _ Hc) as [t ->]. discriminate. }
+  (* how the router found the site: through a key that is also the TLS key, preceded in the
+     candidate list only by absent names, or through a catch-all spelling while no more
+     specific name is in the TLS group *)
+  assert (RA : mget kk e = Some v /\
+               ((key_of kk = [] /\ forall c, In c (h :: wild_cands h) -> c <> [] -> mget c g = None) \/
+                (key_of kk = kk /\ exists pre post, h :: wild_cands h = pre ++ kk :: post /\
+                                                    forall c, In c pre -> mget c e = None))).
+  { unfold vmatch in Ev. cbn [first_match] in Ev.
+    destruct (match_host e h) as [x|] eqn:E0.
+    - injection Ev as ->. unfold match_host in E0.
+      destruct (find_key_some _ _ _ _ E0) as [Hgv [pre [post [Hc Hp]]]]. split; [exact Hgv|].
+      assert (Hkin : In kk (h :: wild_cands h)) by (rewrite Hc; apply in_or_app; right; left; reflexivity).
+      destruct (key_of_cases kk) as [[Hk0 Hun]|[Hk0 _]]; [left|right; split; [exact Hk0|eauto]].
+      split; [exact Hk0|].
+      assert (Hkh : kk = h).
+      { destruct Hkin as [->|Hw]; [reflexivity|]. destruct (wild_cands_star _ _ Hw) as [t ->].
+        destruct Hun as [Hun|Hun]; discriminate. }
+      intros c [<-|Hw] Hcn; [apply Hunspec; rewrite <- Hkh; exact Hun|].
+      apply Hdom; [exact Hcn|]. apply Hstar.
+      unfold fallback_star_names, fallback_hosts. apply in_flat_map. exists h. split; [|exact Hw].
+      rewrite <- Hkh. destruct Hun as [-> | ->]; [left; reflexivity|right; left; reflexivity].
+    - assert (Hfb : exists h', In h' fallback_hosts /\ match_host e h' = Some (kk, v)).
+      { apply first_match_cases. unfold fallback_hosts. cbn [first_match]. exact Ev. }
+      destruct Hfb as [h' [Hh' Hm]]. unfold match_host in Hm.
+      destruct (find_key_some _ _ _ _ Hm) as [Hgv [pre [post [Hc Hp]]]]. split; [exact Hgv|]. left.
+      assert (Hkin : In kk (h' :: wild_cands h')) by (rewrite Hc; apply in_or_app; right; left; reflexivity).
+      assert (Hkh : kk = h').
+      { destruct Hkin as [->|Hw]; [reflexivity|]. exfalso.
+        assert (Hs : mget kk e = None).
+        { apply Hstar. unfold fallback_star_names. apply in_flat_map. exists h'. split; assumption. }
+        rewrite Hs in Hgv. discriminate. }
+      split.
+      + rewrite Hkh. unfold fallback_hosts in Hh'.
+        destruct Hh' as [<-|[<-|[<-|[]]]]; vm_compute; reflexivity.
+      + intros c Hcin Hcn. apply Hdom; [exact Hcn|]. eapply find_key_none; [exact E0|exact Hcin]. }
+  destruct RA as [Hgv RA].
+  (* the group holds settings equal to s's own under the key of s *)
+  destruct (group_own_settings dc bad cfgs g (s_tls s) Hmk) as [i' [c' [ob' [Hg' Hb']]]].
+  { unfold cfgs. apply in_map_iff. exists s. split; [reflexivity|exact Hin]. }
+  rewrite <- (Hkey _ Hgv) in Hg'.
+  destruct sni as [|b0 sni'].
+  - (* no SNI: no default server name, no site named by the local address; the catch-all governs *)
+    destruct (sniless_served _ _ _ _ _ _ Hserve0 Hnth Hdem) as [Hd Hip].
+    assert (Hk0 : key_of kk = []).
+    { destruct RA as [[Hk0 _]|[_ [pre [post [Hc _]]]]]; [exact Hk0|].
+      assert (Hkin : In kk (h :: wild_cands h)) by (rewrite Hc; apply in_or_app; right; left; reflexivity).
+      destruct Hkin as [<-|Hw]; [reflexivity|]. exfalso.
+      assert (Hs : mget kk e = None).
+      { apply Hstar. unfold fallback_star_names, fallback_hosts. apply in_flat_map. exists [].
+        split; [right; right; left; reflexivity|exact Hw]. }
+      rewrite Hs in Hgv. discriminate. }
+    rewrite Hk0 in Hg'.
+    exists [], i', c', ob'. split; [|exact Hb'].
+    unfold get_config, effective_name, normalized_name. rewrite Hd. cbn [trim_space trim_left rev app to_lower map is_nil].
+    match goal with |- context [@find_key ?V g ?l] =>
+      assert (Hfk : @find_key V g l = Some ([], (i', c', ob')))
+    end.
+    { cbn [find_key]. rewrite Hg'. reflexivity. }
+    destruct conn as [a|]; [|rewrite Hfk; reflexivity].
+    destruct (mget (host_only a) g) as [[[i2 c2] ob2]|] eqn:Ea; [|rewrite Hfk; reflexivity].
+    destruct (group_entries _ _ _ _ Hmk _ _ _ _ Ea) as [Hn2 [Hk2 _]].
+    apply nth_error_In in Hn2. unfold cfgs in Hn2. apply in_map_iff in Hn2.
+    destruct Hn2 as [s2 [Hs2 Hin2]]. injection Hs2 as <-.
+    destruct (key_of_cases (host (s_tls s2))) as [[Hk3 _]|[Hk3 _]].
+    + rewrite Hk3 in Hk2. rewrite <- Hk2 in Ea. rewrite Hg' in Ea. injection Ea as <- <- <-.
+      rewrite <- Hk2. reflexivity.
+    + exfalso. apply (Hip a s2 eq_refl Hin2). congruence.
+  - set (sni := b0 :: sni') in *. assert (Hne : sni <> []) by discriminate.
+    assert (Hname : effective_name dflt sni = h).
+    { unfold effective_name, normalized_name. rewrite Htrim. fold h.
+      destruct (is_nil h) eqn:E; [|reflexivity]. exfalso. apply (to_lower_nonempty sni Hne). fold h.
+      destruct h; [reflexivity|discriminate]. }
+    assert (Hhne : h <> []) by (apply to_lower_nonempty; exact Hne).
+    assert (Hcne : forall c, In c (h :: wild_cands h) -> c <> []).
+    { intros c [<-|Hc]; [exact Hhne|]. eapply Hwne; exact Hc. }
+    unfold get_config. rewrite Hname.
+    destruct (is_nil h) eqn:E; [destruct h; [congruence|discriminate]|].
+    change (h :: wild_cands h ++ [[]]) with ((h :: wild_cands h) ++ [[]]).
+    destruct RA as [[Hk0 Hnone]|[Hk0 [pre [post [Hc Hp]]]]].
+    + rewrite Hk0 in Hg'. exists [], i', c', ob'. split; [|exact Hb'].
+      replace (find_key g ((h :: wild_cands h) ++ [[]])) with (Some (@nil N, (i', c', ob')));
+        [reflexivity|symmetry; apply find_key_at; [|exact Hg']].
+      intros c Hcin. apply Hnone; [exact Hcin|apply Hcne; exact Hcin].
+    + rewrite Hk0 in Hg'. exists kk, i', c', ob'. split; [|exact Hb'].
+      rewrite Hc. rewrite <- app_assoc. simpl.
+      replace (find_key g (pre ++ kk :: post ++ [[]])) with (Some (kk, (i', c', ob')));
+        [reflexivity|symmetry; apply find_key_at; [|exact Hg']].
+      intros c Hcp. apply Hdom; [|apply Hp; exact Hcp].
+      apply Hcne. rewrite Hc. apply in_or_app. left. exact Hcp.
 Qed.
